@@ -19,7 +19,7 @@ Definition stok_eqb (a b : stok (K:=float)) : bool :=
 Definition id32 (x : float) : float := x.   (* the harness hands over point tokens already rounded by numpy *)
 Definition v3_eqb (a b : vec3 float) : bool := PrimFloat.eqb (vx a) (vx b) && PrimFloat.eqb (vy a) (vy b) && PrimFloat.eqb (vz a) (vz b).
 
-Inductive rkind := RVtkTria | RVtkTet | ROff.
+Inductive rkind := RVtkTria | RVtkTet | ROff | RGmsh.
 Inductive meshres := NoMesh | TriaRes (v : list (vec3 float)) (t : list tri) | TetRes (v : list (vec3 float)) (t : list tet).
 
 Definition read_with (k : rkind) (f : file (K:=float)) : meshres :=
@@ -27,6 +27,7 @@ Definition read_with (k : rkind) (f : file (K:=float)) : meshres :=
   | RVtkTria => match read_vtk_tria id32 float_of_Z f with Some (v, t) => TriaRes v t | None => NoMesh end
   | RVtkTet => match read_vtk_tet id32 float_of_Z f with Some (v, t) => TetRes v t | None => NoMesh end
   | ROff => match read_off id32 float_of_Z f with Some (v, t) => TriaRes v t | None => NoMesh end
+  | RGmsh => match read_gmsh id32 float_of_Z f with Some (v, t) => TetRes v t | None => NoMesh end
   end.
 Definition meshres_eqb (a b : meshres) : bool :=
   match a, b with
